@@ -108,7 +108,7 @@ def search(ctx, budget):
         if r[0] == 'bad':
             ctx.failures.append(({'stage': 'pairs', 'seed': j[0], 'root': j[1], 'text': r[2]}, r[1]))
     cs = list(getattr(ctx, '_docs', [])) + (cases(ctx, ctx.n(700, 40000) * (budget - 1)) if budget > 1 else [])
-    cs.append((stages.URIS[0], 'doc', '', 'w1z\nATTACHMENT w2z\n  w3z\n  ANNEXURE w4z\n    w5z\n  w6z\n'))      # witness of known finding F20
+    cs.append((stages.URIS[0], 'debateReport', '', '} SUBRULE\n  w1z\nw2z\n      COMMUNICATION\nATTACHMENT RESOLUTIONS م3z{{*BACKGROUND  - \n      tok4z -  😀z5z{{em\n    ANNEXURE\n      م6z ש7z\n      PREFACE\n  ש8z'))      # witness of known finding F20
     for c, r in zip(cs, impl.pmap(_oracle, cs, chunk=8)):
         ctx.evaluations += 1; ctx.count('oracle_' + r[0])
         if r[0] == 'bad':
